@@ -860,7 +860,9 @@ func redateAny(o *ObjSpec, to time.Time) *ObjSpec {
 	return redate(o, to)
 }
 
-var detailPool = []string{"", "scripted details", "a\nb\tc", "ünïcödé ✓", "\xff\xfe not utf8 \x80", "   ", "'x' panicked. Error: not really", strings.Repeat("long ", 200), "{\"json\":true}", "<html>&amp;</html>"}
+var detailPool = []string{"", "scripted details", "a\nb\tc", "ünïcödé ✓", "\xff\xfe not utf8 \x80", "   ", "'x' panicked. Error: not really", strings.Repeat("long ", 200), "{\"json\":true}", "<html>&amp;</html>",
+	// findings that say a lot: tens of kilobytes from one lint (whatever bounds or pools what a run may say must not cut it)
+	strings.Repeat("a very long finding text; ", 900), strings.Repeat("x", 70000)}
 
 func genAction(g *RNG, def *probeDef, prop string) Action {
 	a := Action{Applies: g.Chance(0.78)}
